@@ -116,7 +116,10 @@ def check_every_change_notifies(res, E):
     if not n:
         res.inconclusive.append("vacuity: process_once has no path through SharedHistory::update")
     res.distinct += n
+    before = len(res.violations)
     c14.check_update_plumbing(res, E)
+    # of the update plumbing only the reported flag matters here (a version change must reach the waiting requests)
+    res.violations = res.violations[:before] + [v for v in res.violations[before:] if v["key"] == "mir:update-flag-wrong"]
 
 
 def check_need_wait_atomic(res, E):
